@@ -9,7 +9,7 @@
       faults = number of use-after-free / double-free events so far
       mapped = `C<k>:<0/1>` per compiled version
    ops:  b:<r>  rc:<r>  rf:<r>  c:<r>:<k>:<nconst>:<useConst>:<useClos>:<useData>:<value>
-         g:<k>  ch:<i>  if:<i>  x:<i>  dh:<i>  dp:<k>  dr:<r>
+         g:<k>  gt:<k>  ch:<i>  if:<i>  x:<i>  dh:<i>  dp:<k>  dr:<r>
 -/
 import Driver.Util
 import RotoV.Model.Lifetime
@@ -29,6 +29,7 @@ def parseOp (tok : String) : Option Op :=
       | "rc" => some (.registerConst n)
       | "rf" => some (.registerClosure n)
       | "g" => some (.getHandle n)
+      | "gt" => some (.getTest n)
       | "ch" => some (.cloneHandle n)
       | "if" => some (.intoFunc n)
       | "x" => some (.call n)
